@@ -15,11 +15,12 @@ EXPLANATION = (
 )
 RULE = "one case = one (typestate, client call, oracle resolution) transition; distinct = reachable typestates"
 EXHAUSTIVE = True
-OWNED = {"C03.M1", "C04.M4", "C03.T1", "C03.T2", "C03.A4", "C02.T2", "CRASH"}
+OWNED = {"C03.M1", "C04.M4", "C03.T1", "C03.T2", "C03.A4", "C02.T2", "CRASH", "ISO"}
 RENAME = {"C04.M4": "C03.M2", "C02.T2": "C03.T2x"}
 
 
 def check(ctx):
+    ctx.rule("ISO", "calls on one instance never change the heap reachable from another instance of the same class")
     ctx.assume("python", "clock", "client", "inspect")
     ctx.rule("C03.M1", "initial_call == (the last state function called was another state) or (a next_state()/done() call happened since)")
     ctx.rule("C03.M2", "first regular state call after a stop: tm is exactly 0")
